@@ -5,7 +5,7 @@ CONSTANTS
   MaxDepth = 1
   Breaks <- BreaksQ
   Degs <- DegsQ
-  MaxNpts = 5
+  MaxNpts = 4
   Acts = {"CvSplit"}
   PtKinds = {"gen"}
   WtKinds = {"none", "gen", "const"}
